@@ -361,6 +361,28 @@ pub const NEST: &[(&str, &str, &str, &str)] = &[
     ("call_chain", "fn f(){a", "()", ""),
     ("pipe_chain", "fn f(){a", "|>b", ""),
     ("add_chain", "fn f(){a", "+b", ""),
+    // a chain of every other binary operator (associativity is per operator)
+    ("chain -", "fn f(){a", "- b", ""),
+    ("chain *", "fn f(){a", "* b", ""),
+    ("chain /", "fn f(){a", "/ b", ""),
+    ("chain <", "fn f(){a", "< b", ""),
+    ("chain >", "fn f(){a", "> b", ""),
+    ("chain <=", "fn f(){a", "<= b", ""),
+    ("chain >=", "fn f(){a", ">= b", ""),
+    ("chain +.", "fn f(){a", "+. b", ""),
+    ("chain -.", "fn f(){a", "-. b", ""),
+    ("chain *.", "fn f(){a", "*. b", ""),
+    ("chain /.", "fn f(){a", "/. b", ""),
+    ("chain %", "fn f(){a", "% b", ""),
+    ("chain <.", "fn f(){a", "<. b", ""),
+    ("chain >.", "fn f(){a", ">. b", ""),
+    ("chain <=.", "fn f(){a", "<=. b", ""),
+    ("chain >=.", "fn f(){a", ">=. b", ""),
+    ("chain <>", "fn f(){a", "<> b", ""),
+    ("chain ==", "fn f(){a", "== b", ""),
+    ("chain !=", "fn f(){a", "!= b", ""),
+    ("chain ||", "fn f(){a", "|| b", ""),
+    ("chain &&", "fn f(){a", "&& b", ""),
 ];
 
 pub fn nest_input(idx: usize, depth: usize, closed: bool) -> String {
